@@ -586,6 +586,13 @@ func write(dir, name, content string) {
 }
 
 func main() {
+	if len(os.Args) == 4 && os.Args[1] == "-fsrewrite" {
+		if err := fsRewrite(os.Args[2], os.Args[3]); err != nil {
+			fmt.Fprintln(os.Stderr, err)
+			os.Exit(1)
+		}
+		return
+	}
 	if len(os.Args) != 3 {
 		fmt.Fprintln(os.Stderr, "usage: gofacts <repo> <outdir>")
 		os.Exit(2)
